@@ -175,9 +175,15 @@ def answerCore (fs : List (String × String)) : E String := do
         let sq := (Diffusion.sqrtQD Fix.exp Fix.sqrt dist width).data
         let nrm := Fix.sqrt (sq.foldl (fun acc x => acc + x * x) 0)
         let sign : Fix := if ((vecs[0]!)[d]!).m < 0 then (0 : Fix) - 1 else 1
-        for i in [0:N] do
-          if !(fabs ((vecs[i]!)[d]! * sign - sq[i]! / nrm) ≤ tolPow 22) then
-            return s!"res=FAIL:top-eigenvector-not-sqrt-q row {i}"
+        -- the top eigenvector is determined to about ε / gap(1, λ₂): tolerance 2⁻⁴⁰ / gap, clause skipped below gap 2⁻²⁰
+        let gap : Fix := if d = 0 then 1 else vals[d]! - vals[d - 1]!
+        let mut trivS := "skipped(gap<2^-20)"
+        if tolPow 20 < gap then
+          let tolT := tolPow 40 / gap
+          trivS := "checked"
+          for i in [0:N] do
+            if !(fabs ((vecs[i]!)[d]! * sign - sq[i]! / nrm) ≤ tolT) then
+              return s!"res=FAIL:top-eigenvector-not-sqrt-q row {i}"
         -- (3) the returned coordinates are λ^t ψ_c/ψ_0 recomputed by the model from the observed (V, λ)
         --     (exact rational arithmetic: the coordinates span hundreds of binary orders of magnitude)
         let vecsQ ← match parseRows parseRat (← need fs "vecs") with
@@ -197,7 +203,7 @@ def answerCore (fs : List (String × String)) : E String := do
         | some e => return s!"res=FAIL:coordinates {e}"
         | none => pure ()
         if !c.ok then return s!"res=BROKEN:solver-input {describe c}"
-        return s!"res=ok {describe c} {certLine co} approx={N * N + N * d + N}"
+        return s!"res=ok {describe c} {certLine co} trivial={trivS} approx={N * N + N * d + N}"
     else throw s!"unknown op {op}"
   else throw "N=0"
 
